@@ -18,8 +18,8 @@ func (r *Rng) Intn(n int) int {
 	}
 	return int(r.U64() % uint64(n))
 }
-func (r *Rng) Bool() bool        { return r.U64()&1 == 1 }
-func (r *Rng) Chance(p int) bool { return r.Intn(100) < p } // p percent
+func (r *Rng) Bool() bool              { return r.U64()&1 == 1 }
+func (r *Rng) Chance(p int) bool       { return r.Intn(100) < p } // p percent
 func (r *Rng) Pick(ss []string) string { return ss[r.Intn(len(ss))] }
 func (r *Rng) Str(alpha string, maxLen int) string {
 	n := r.Intn(maxLen + 1)
